@@ -40,6 +40,9 @@ impl Net {
         if d.mhdr_rfu & 7 != 0 {
             return lrv_core::refcodec::encode_data_rfu(&desc, &self.nwk, &self.app, d.mhdr_rfu).expect("legal downlink description");
         }
+        if d.port == Some(0) && !d.f_opts.is_empty() {
+            return lrv_core::refcodec::encode_data_on_the_wire(&desc, &self.nwk, &self.app).expect("encodable downlink description");
+        }
         encode_data(&desc, &self.nwk, &self.app).expect("legal downlink description")
     }
 
